@@ -262,3 +262,39 @@ def dereify(self: 'Model', instance_triple: 'tuple', source_triple: 'tuple', tar
                        and result == dereified(e, source_triple, target_triple)))
     invariant(0, lambda: forall_idx(dereif_get(self, concept), lambda k, f: k >= _i or not fits(f, source_role, target_role)))
     invariant(0, lambda: concept == instance_triple[2] and source_role == source_triple[1] and target_role == target_triple[1])
+
+
+# ---- role sort keys (C05) --------------------------------------------------------------------------
+
+@contract('penman.model:Model.original_order')
+def original_order(self: 'Model', role: 'val') -> 'bool':
+    # a constant key: sorting by it keeps the given order (sorted() is stable, T3)
+    ensures(result == True)
+
+
+@contract('penman.model:Model.alphanumeric_order')
+def alphanumeric_order(self: 'Model', role: 'str') -> 'tuple':
+    requires(not ('\n' in role))       # a role never contains a line break (NameChar)
+    # name + numeric value of the maximal trailing digit run (so :op10 sorts after :op2):
+    # role == name ++ digits, name ends in a non-digit, number == int(digits)
+    ensures(result == alnum_of(self, role), label='define')
+    ensures(len(result) == 2)
+    ensures(implies(in_re(role, '.*[^0-9][0-9]+'),
+                    is_str(result[0]) and role.startswith(result[0]) and in_re(result[0], '.*[^0-9]')
+                    and in_re(role[len(result[0]):], '[0-9]+') and result[1] == int(role[len(result[0]):])),
+            label='split')
+    # a role without a trailing number (or made of digits only) keeps its text and gets number 0
+    ensures(implies(not in_re(role, '.*[^0-9][0-9]+'), result == (role, 0)), label='plain')
+
+
+@spec(uninterpreted=True)
+def alnum_of(model: 'Model', role: 'str') -> 'tuple':
+    """names the result of Model.alphanumeric_order (deterministic)"""
+
+
+@contract('penman.model:Model.canonical_order')
+def canonical_order(self: 'Model', role: 'str') -> 'tuple':
+    requires(not ('\n' in role))
+    # inverted roles last; within each group the alphanumeric order
+    ensures(len(result) == 2 and result[0] == inverted(self, role), label='inverted-last')
+    ensures(result[1] == alnum_of(self, role), label='then-alphanumeric')
